@@ -5,7 +5,10 @@
 //!   put, so the image a crash leaves *inside* put `i` (a prefix of the payload stored under the
 //!   key; rename / delete are atomic) can be reconstructed: `image_inside_put(i, prefix_len)`;
 //! * scripted transient failures: call `i` fails with an error, for a put possibly after having
-//!   stored a prefix of the payload (`Fault::PartialThenFail`);
+//!   stored a prefix of the payload (`Fault::PartialThenFail`), or after having taken full
+//!   effect (`Fault::EffectThenFail`); a get may return damaged bytes once
+//!   (`CorruptGet` / `TruncateGet`); faults can also be addressed as "the n-th call made by
+//!   task t" (`set_task_faults`) when the global index depends on a schedule;
 //! * optional gate: when `set_gated(true)`, every call first suspends once (returns `Pending`)
 //!   and is performed when its task is polled again. A driver that polls two tasks by hand
 //!   therefore executes exactly one store call per poll (DESIGN.md §2.5, used by C13).
@@ -54,6 +57,11 @@ pub enum Fault {
     /// get only: the call returns Ok with only the first `permille`/1000 of the object; the
     /// stored object stays intact. Other operations are not affected.
     TruncateGet(u16),
+    /// The operation TAKES EFFECT and still reports an error (a timeout after the commit).
+    /// put: the whole object is stored; delete: the object is gone; rename: the destination
+    /// holds the object and the source is still there (copy landed, delete of the source
+    /// failed — how the in-tree S3 store implements rename). Read operations: like `Fail`.
+    EffectThenFail,
 }
 
 #[derive(Clone, Debug)]
@@ -69,6 +77,8 @@ pub struct CallRecord {
     /// the error was scripted (otherwise a failed call is the store's genuine answer, e.g.
     /// NotFound)
     pub injected: bool,
+    /// the scripted fault that applied to this call
+    pub fault: Option<Fault>,
     /// whatever `set_task` said when the call was performed (step scheduler)
     pub task: u8,
 }
@@ -76,8 +86,13 @@ pub struct CallRecord {
 impl CallRecord {
     pub fn short(&self) -> String {
         let k = self.key.rsplit('/').next().unwrap_or(&self.key);
+        let effect = if self.fault == Some(Fault::EffectThenFail) && !self.ok {
+            " — the operation took effect"
+        } else {
+            ""
+        };
         format!(
-            "#{} t{} {:?} {}{}{}",
+            "#{} t{} {:?} {}{}{}{}",
             self.idx,
             self.task,
             self.op,
@@ -94,7 +109,8 @@ impl CallRecord {
                 " FAILED (injected)"
             } else {
                 " -> error (not found)"
-            }
+            },
+            effect
         )
     }
 }
@@ -106,6 +122,8 @@ struct Inner {
     calls: Vec<CallRecord>,
     snapshots: Vec<Image>,
     faults: BTreeMap<usize, Fault>,
+    task_faults: BTreeMap<(u8, usize), Fault>,
+    task_calls: BTreeMap<u8, usize>,
     gated: bool,
     task: u8,
 }
@@ -132,7 +150,7 @@ impl Future for YieldOnce {
 
 /// Does this scripted fault make a non-get operation fail?
 fn fails(f: Option<Fault>) -> bool {
-    matches!(f, Some(Fault::Fail) | Some(Fault::PartialThenFail(_)))
+    matches!(f, Some(Fault::Fail) | Some(Fault::PartialThenFail(_)) | Some(Fault::EffectThenFail))
 }
 
 fn injected(op: &str, idx: usize) -> IoError {
@@ -159,6 +177,8 @@ impl TraceObjectStore {
                 calls: Vec::new(),
                 snapshots: Vec::new(),
                 faults: BTreeMap::new(),
+                task_faults: BTreeMap::new(),
+                task_calls: BTreeMap::new(),
                 gated: false,
                 task: 0,
             })),
@@ -171,6 +191,10 @@ impl TraceObjectStore {
 
     pub fn set_faults(&self, faults: &[(usize, Fault)]) {
         self.lock().faults = faults.iter().cloned().collect();
+    }
+    /// fault on the n-th (0-based) call made while `set_task(t)` is in force
+    pub fn set_task_faults(&self, faults: &[((u8, usize), Fault)]) {
+        self.lock().task_faults = faults.iter().cloned().collect();
     }
     pub fn set_gated(&self, on: bool) {
         self.lock().gated = on;
@@ -231,10 +255,24 @@ impl TraceObjectStore {
             data: data.map(|d| Arc::new(d.to_vec())),
             ok: true,
             injected: false,
+            fault: None,
             task,
         });
-        let f = g.faults.get(&idx).cloned();
+        let nth = {
+            let c = g.task_calls.entry(task).or_default();
+            let n = *c;
+            *c += 1;
+            n
+        };
+        let f = g
+            .faults
+            .get(&idx)
+            .cloned()
+            .or_else(|| g.task_faults.get(&(task, nth)).cloned());
         g.calls[idx].injected = (op == OpKind::Get && f.is_some()) || fails(f);
+        if g.calls[idx].injected {
+            g.calls[idx].fault = f;
+        }
         (idx, f)
     }
 
@@ -271,6 +309,13 @@ impl ObjectStore for TraceObjectStore {
                     g.objects.insert(key.to_string(), payload);
                     g.created.insert(key.to_string(), idx as u64);
                     Ok(())
+                }
+                Some(Fault::EffectThenFail) => {
+                    let mut g = self.lock();
+                    let payload = g.calls[idx].data.clone().expect("put payload recorded");
+                    g.objects.insert(key.to_string(), payload);
+                    g.created.insert(key.to_string(), idx as u64);
+                    Err(injected("put (after the object was stored)", idx))
                 }
                 Some(Fault::PartialThenFail(pm)) => {
                     let n = (data.len() * pm.min(1000) as usize) / 1000;
@@ -313,7 +358,9 @@ impl ObjectStore for TraceObjectStore {
                     let n = (d.len() * pm.min(999) as usize) / 1000;
                     Ok(d[..n].to_vec())
                 }
-                (Some(Fault::Fail), _) | (Some(Fault::PartialThenFail(_)), _) => Err(injected("get", idx)),
+                (Some(Fault::Fail), _) | (Some(Fault::PartialThenFail(_)), _) | (Some(Fault::EffectThenFail), _) => {
+                    Err(injected("get", idx))
+                }
                 (_, Some(d)) => Ok(d.as_ref().clone()),
                 (_, None) => Err(IoError::new(ErrorKind::NotFound, format!("Key not found: {}", key))),
             };
@@ -346,7 +393,12 @@ impl ObjectStore for TraceObjectStore {
         Box::pin(async move {
             self.gate().await;
             let (idx, fault) = self.begin(OpKind::Delete, key, None, None);
-            let r = if fails(fault) {
+            let r = if fault == Some(Fault::EffectThenFail) {
+                let mut g = self.lock();
+                g.objects.remove(key);
+                g.created.remove(key);
+                Err(injected("delete (after the object was removed)", idx))
+            } else if fails(fault) {
                 Err(injected("delete", idx))
             } else {
                 let mut g = self.lock();
@@ -400,7 +452,21 @@ impl ObjectStore for TraceObjectStore {
         Box::pin(async move {
             self.gate().await;
             let (idx, fault) = self.begin(OpKind::Rename, from, Some(to), None);
-            let r = if fails(fault) {
+            let r = if fault == Some(Fault::EffectThenFail) {
+                let mut g = self.lock();
+                match g.objects.get(from).cloned() {
+                    Some(obj) => {
+                        // copy landed, delete of the source failed
+                        g.objects.insert(to.to_string(), obj);
+                        g.created.insert(to.to_string(), idx as u64);
+                        Err(injected("rename (after the destination was written)", idx))
+                    }
+                    None => Err(IoError::new(
+                        ErrorKind::NotFound,
+                        format!("Source key not found: {}", from),
+                    )),
+                }
+            } else if fails(fault) {
                 Err(injected("rename", idx))
             } else {
                 let mut g = self.lock();
